@@ -76,3 +76,12 @@ BUILT['C09'] = (
     "holding 1..5 values with options (unit, order); all four length branches and the error branch of binop and _op2 are "
     "required line-reach targets",
     NOTE, "DESIGN.md 4 C09")
+BUILT['C10'] = (
+    "history + executable model: the object and a plain Python list are driven in lock-step through exhaustively enumerated "
+    "short operation sequences and random long ones; complete slice grid; full state comparison after every step",
+    "every sequence of up to 2 operations (3 for SE3; 3/4 in thorough) over a 24-operation alphabet (append/extend/insert/pop/"
+    "del/setitem/reverse/clear/copy with valid, multi-valued and foreign-class arguments, in- and out-of-range indices) from "
+    "start lengths 0..4 in 11 classes, plus random histories up to 60 steps; after each step len and every stored element equal "
+    "the list model bit for bit, every index -n-2..n+1, iteration, pop result and copy is a same-class object with the model's "
+    "value, IndexError exactly when the list raises; all 1792 slices x lengths 0..5 enumerated on every run",
+    NOTE, "DESIGN.md 4 C10")
